@@ -953,16 +953,19 @@ def rule_errstate_entry(repo, col):
 
 def rule_check_all_kinds(repo, col):
     rule = 'OR-CHECKALL'
-    q = 'Table.__init__'
-    fn = repo.func(TABLE, q)
-    calls = [c for c in body_walk(fn) if isinstance(c, ast.Call) and
-             call_name(c) == 'errcheck']
-    bad = [c for c in calls if len(c.args) > 1 or c.keywords]
-    col.check(bool(calls) and not bad, rule, TABLE, q, 'all-kinds',
-              bad[0] if bad else fn, 'errcheck(self) tests every kind',
-              '`%s` tests a hand-picked list of kinds: the others (e.g. '
-              'obssize / sampsize) are never tested for this input'
-              % (unparse(bad[0], 70) if bad else ''))
+    for q in ('Table.__init__', 'Table.update_ids', 'Table.filter'):
+        if not repo.has_func(TABLE, q):
+            continue
+        fn = repo.func(TABLE, q)
+        calls = [c for c in body_walk(fn) if isinstance(c, ast.Call) and
+                 call_name(c) == 'errcheck']
+        bad = [c for c in calls if len(c.args) > 1 or c.keywords]
+        col.check(bool(calls) and not bad, rule, TABLE, q, 'all-kinds',
+                  bad[0] if bad else fn, 'errcheck(<table>) tests every '
+                  'kind', '`%s` tests a hand-picked list of kinds: the '
+                  'others (e.g. the duplicate ids of the other axis, the '
+                  'size checks) are never tested on this path'
+                  % (unparse(bad[0], 70) if bad else ''))
 
 
 def rule_subset_cleanup_axis(repo, col):
@@ -1063,7 +1066,8 @@ RULE_TEXT['TA-VALDTYPE'] = (
 
 
 def rule_value_buffer_dtype(repo, col, funcs=((TABLE, 'Table.from_adjacency'),
-                                              (PARSE, 'parse_uc'))):
+                                              (PARSE, 'parse_uc'),
+                                              (TABLE, 'Table._fast_merge'))):
     from .rules_generic import _dtype_word
     rule = 'TA-VALDTYPE'
     n = 0
@@ -1084,6 +1088,13 @@ def rule_value_buffer_dtype(repo, col, funcs=((TABLE, 'Table.from_adjacency'),
                 allocs = [a.value for a in body_walk(fn) if isinstance(
                     a, ast.Assign) and any(isinstance(t, ast.Name) and
                                            t.id == d.id for t in a.targets)]
+                # rows, cols, data = np.empty((3, n), dtype=...)
+                allocs += [a.value for a in body_walk(fn) if isinstance(
+                    a, ast.Assign) and isinstance(
+                    a.targets[0], (ast.Tuple, ast.List)) and any(
+                    isinstance(t, ast.Name) and t.id == d.id
+                    for t in a.targets[0].elts) and isinstance(
+                    a.value, ast.Call)]
             else:
                 allocs = [d]
             bad = None
@@ -1670,6 +1681,14 @@ def rule_eq_fields(repo, col):
                   'filter() and transpose() do not carry it, so a table is '
                   'unequal to its own copy' % (unparse(extra[0], 40)
                                                if extra else ''))
+        for t in ast.walk(fn):
+            if isinstance(t, ast.If) and isinstance(t.test, ast.BoolOp) and \
+                    any(isinstance(x, ast.Attribute) and x.attr == 'type'
+                        for x in ast.walk(t.test)):
+                col.bad(rule, TABLE, q, 'type-symmetric', t.test,
+                        'the type test `%s` carries an extra condition: a '
+                        'typed and an untyped table compare equal one way '
+                        'round only' % unparse(t.test, 70))
         if q == 'Table._data_equality':
             diffs = [b for b in ast.walk(fn) if isinstance(b, ast.BinOp) and
                      isinstance(b.op, ast.Sub)]
@@ -1921,3 +1940,483 @@ def rule_sparse_fill(repo, col):
               'returned as is: its fill value is pandas\' default, which is '
               'NaN in the installed pandas, so every zero cell of the '
               'matrix is exported as a missing value')
+
+
+RULE_TEXT['OR-SORTED'] = ('the predicate kernel receives a matrix with '
+                          'sorted indices')
+
+
+def rule_searchsorted_needs_sorted(repo, col, rels=(TABLE,)):
+    """A binary search over the stored positions of a compressed vector
+    (`searchsorted(X.indices[...])`, `bisect`) needs `X.sort_indices()` /
+    `sorted_indices()` to dominate it: reordering leaves indices unsorted."""
+    from .cfg import CFG
+    rule = 'OR-SORTED'
+    n = 0
+    for rel, q, fn in repo.all_functions():
+        if rel not in rels or isinstance(fn, ast.Lambda):
+            continue
+        hits = [c for c in body_walk(fn) if isinstance(c, ast.Call) and (
+            call_name(c) or '').split('.')[-1] in (
+            'searchsorted', 'bisect_left', 'bisect_right', 'bisect') and any(
+            isinstance(x, ast.Attribute) and x.attr == 'indices'
+            for a in c.args for x in ast.walk(a))]
+        if not hits:
+            continue
+        cfg = CFG(fn)
+        for c in hits:
+            n += 1
+            node = next((s_ for s_ in cfg.stmt_nodes() if s_.kind == 'stmt'
+                         and any(x is c for x in ast.walk(s_.stmt))), None)
+            sorters = [s_ for s_ in cfg.stmt_nodes() if s_.kind == 'stmt'
+                       and any(isinstance(x, ast.Call) and isinstance(
+                           x.func, ast.Attribute) and x.func.attr in (
+                           'sort_indices', 'sorted_indices')
+                           for x in ast.walk(s_.stmt))]
+            ok = node is not None and any(cfg.dominates(s_, node)
+                                          for s_ in sorters)
+            col.check(ok, rule, rel, q, 'searchsorted-on-indices', c,
+                      'the indices are sorted before the binary search',
+                      '`%s` searches the stored positions of a compressed '
+                      'vector by bisection without sorting them first: '
+                      'after a reordering (sort_order, concat) the indices '
+                      'are not in ascending order and stored values are '
+                      'reported as 0' % unparse(c, 60))
+    col.ok(rule, TABLE, '<file>', 'searchsorted-scan', None,
+           '%d binary searches over stored indices' % n)
+
+
+# ===========================================================================
+# eighth round of seeded changes
+# ===========================================================================
+RULE_TEXT.update({
+    'TA-SQUEEZE': 'np.squeeze without an axis turns a one-element vector '
+                  'into a 0-d array: it is only used where that case is '
+                  'handled.',
+    'SB-PARSEDIDS': 'from_tsv builds its table from the ids the text '
+                    'carries on every path.',
+    'OR-METAUPD': 'metadata updates affect exactly the named ids and keys',
+    'SB-FLAGACC': 'a flag that summarises a loop is accumulated (or set '
+                  'under a condition), not overwritten by each iteration.',
+    'SB-YIELDALL': 'partition hands out every part it formed.',
+    'SB-KERNELALWAYS': 'the subsample kernel runs for every count '
+                       'subsample: it also removes the vectors below the '
+                       'depth.',
+    'AG-RANKMETHODS': 'rankdata accepts every tie method of '
+                      'scipy.stats.rankdata.',
+    'SB-FILEIDS': 'the ids of a subset read are taken from the file (the '
+                  'selected stored ids), not from the request.',
+    'OR-FILTERORDER': 'after a subset read the empty-vector clean-up '
+                      'follows the id filter.',
+    'AG-ERRMSG': 'the message of the metadata type error formats the '
+                 'offending entry through repr(): a tuple entry must not '
+                 'be taken for the argument tuple of %.',
+    'SB-REDUCEALL': 'Table.reduce folds every value of a vector, zeros '
+                    'included.',
+    'TA-EXPORTASIS': 'metadata values are exported as they are (no numeric '
+                     'inference).',
+    'TA-QUOTES': 'MetadataMap.from_file removes every double quote of a '
+                 'field, not only enclosing ones.',
+    'AG-SPLITSTRIP': 'the list converters of add-metadata strip blanks on '
+                     'both sides of every element.',
+    'AG-ADJHEADER': 'from_adjacency recognises exactly the documented '
+                    'header line.',
+})
+
+
+def rule_squeeze(repo, col, rels=(TABLE,)):
+    rule = 'TA-SQUEEZE'
+    n = 0
+    for rel, q, fn in repo.all_functions():
+        if rel not in rels or isinstance(fn, ast.Lambda):
+            continue
+        for c in body_walk(fn):
+            if isinstance(c, ast.Call) and (call_name(c) or '').split(
+                    '.')[-1] == 'squeeze' and not any(
+                    k.arg == 'axis' for k in c.keywords) and len(
+                    c.args) <= 1:
+                n += 1
+                src = unparse(fn, 50000)
+                handled = '(1, 1)' in src or 'shape == ()' in src or \
+                    '.ndim' in src or 'reshape(1)' in src
+                col.check(handled, rule, rel, q, 'squeeze@%d' % n, c,
+                          'the one-element case is handled here',
+                          '`%s`: a 1 x 1 vector becomes a 0-d array, which '
+                          'cannot be iterated (a table with a single '
+                          'sample / observation)' % unparse(c, 50))
+    col.ok(rule, TABLE, '<file>', 'scan', None, '%d squeeze calls' % n)
+
+
+def rule_parsed_ids(repo, col):
+    rule = 'SB-PARSEDIDS'
+    q = 'Table.from_tsv'
+    if not repo.has_func(TABLE, q):
+        return
+    fn = repo.func(TABLE, q)
+    ctors = [c for c in ast.walk(fn) if isinstance(c, ast.Call) and
+             call_name(c) in ('Table', 'cls')]
+    for i, c in enumerate(ctors):
+        a = c.args[1] if len(c.args) > 1 else kwarg(c, 'observation_ids')
+        lit_empty = isinstance(a, (ast.List, ast.Tuple)) and not a.elts
+        col.check(not lit_empty, rule, TABLE, q, 'ctor@%d' % (i + 1), c,
+                  'observation ids come from the text',
+                  '`%s` builds a table without observation ids on a path '
+                  'where the text may name some (an all-zero table keeps '
+                  'its ids)' % unparse(c, 50))
+
+
+def rule_new_axis_metadata(repo, col):
+    rule = 'OR-METAUPD'
+    q = 'Table.add_metadata'
+    if not repo.has_func(TABLE, q):
+        return
+    fn = repo.func(TABLE, q)
+    n = 0
+    for a in body_walk(fn):
+        if isinstance(a, ast.Assign) and any(
+                isinstance(t, ast.Attribute) and t.attr in (
+                    '_sample_metadata', '_observation_metadata')
+                for t in a.targets) and isinstance(a.value, ast.Call) and \
+                call_name(a.value) == 'tuple' and a.value.args:
+            n += 1
+            g = a.value.args[0]
+            per_id = isinstance(g, (ast.GeneratorExp, ast.ListComp)) and \
+                'ids' in unparse(g.generators[0].iter, 80)
+            if isinstance(g, ast.Name):
+                vals = [x.value for x in body_walk(fn) if isinstance(
+                    x, ast.Assign) and any(isinstance(t, ast.Name) and
+                                           t.id == g.id for t in x.targets)]
+                per_id = bool(vals) and all(
+                    isinstance(v, (ast.GeneratorExp, ast.ListComp)) and
+                    'ids' in unparse(v.generators[0].iter, 80) for v in vals)
+            col.check(per_id, rule, TABLE, q, 'one-entry-per-id@%d' % n, a,
+                      'one entry per id of the axis',
+                      '`%s` does not build the entries by walking the ids '
+                      'of the axis: ids named in the mapping but absent '
+                      'from the axis add entries' % unparse(a.value, 60))
+
+
+def rule_flag_accumulated(repo, col, funcs=((TABLE, 'Table.concat'),
+                                            (TABLE, 'Table.merge'),
+                                            (TABLE, 'Table.to_json'))):
+    rule = 'SB-FLAGACC'
+    n = 0
+    for rel, q in funcs:
+        if not repo.has_func(rel, q):
+            continue
+        fn = repo.func(rel, q)
+        body = list(fn.body)
+        for i, loop in enumerate(body):
+            if not isinstance(loop, ast.For):
+                continue
+            before = {t.id for st in body[:i] if isinstance(st, ast.Assign)
+                      and isinstance(st.value, ast.Constant) and isinstance(
+                          st.value.value, bool) for t in st.targets
+                      if isinstance(t, ast.Name)}
+            after_used = {x.id for st in body[i + 1:] for x in ast.walk(st)
+                          if isinstance(x, ast.Name)}
+            for st in loop.body:
+                if isinstance(st, ast.Assign) and len(st.targets) == 1 and \
+                        isinstance(st.targets[0], ast.Name) and \
+                        st.targets[0].id in before & after_used and \
+                        not isinstance(st.value, ast.Constant) and \
+                        st.targets[0].id not in _names(st.value):
+                    n += 1
+                    col.bad(rule, rel, q, 'overwritten:%s' % st.targets[0].id,
+                            st, '`%s` is assigned afresh in every '
+                            'iteration and read after the loop: only the '
+                            'last element decides (it is neither or-ed '
+                            'with its previous value nor set under a '
+                            'condition)' % unparse(st, 50))
+    col.ok(rule, TABLE, '<scope>', 'scan', None,
+           '%d per-iteration flag overwrites' % n)
+
+
+def rule_partition_yields_all(repo, col):
+    rule = 'SB-YIELDALL'
+    q = 'Table.partition'
+    if not repo.has_func(TABLE, q):
+        return
+    fn = repo.func(TABLE, q)
+    for loop in body_walk(fn):
+        if isinstance(loop, ast.For) and any(
+                isinstance(x, ast.Yield) for x in ast.walk(loop)):
+            skips = [x for st in loop.body for x in ast.walk(st)
+                     if isinstance(x, (ast.Continue, ast.Break))]
+            guarded = [st for st in loop.body if isinstance(st, ast.If) and
+                       any(isinstance(x, ast.Yield) for x in ast.walk(st))]
+            col.check(not skips and not guarded, rule, TABLE, q,
+                      'every-part', skips[0] if skips else (
+                          guarded[0] if guarded else loop),
+                      'every part formed is handed out',
+                      'a part can be skipped before it is yielded: its ids '
+                      'are in no part of the partition')
+    # the three per-part lists grow together
+    for loop in body_walk(fn):
+        if not isinstance(loop, ast.For):
+            continue
+        apps = [(st, c) for st in loop.body for c in ast.walk(st)
+                if isinstance(c, ast.Call) and isinstance(
+                    c.func, ast.Attribute) and c.func.attr == 'append' and
+                isinstance(c.func.value, ast.Subscript) and isinstance(
+                    c.func.value.slice, ast.Constant)]
+        if len(apps) >= 2:
+            cond = [st for st, c in apps if not (isinstance(st, ast.Expr))]
+            col.check(not cond, rule, TABLE, q, 'parallel-appends',
+                      cond[0] if cond else loop,
+                      'ids, vectors and metadata are appended together',
+                      'one of the per-part lists is appended under a '
+                      'condition (`%s`): the lists of a part get out of '
+                      'step' % (unparse(cond[0].test, 40) if cond and
+                                isinstance(cond[0], ast.If) else ''))
+
+
+def rule_kernel_unconditional(repo, col):
+    from .flow import reached_under
+    rule = 'SB-KERNELALWAYS'
+    q = 'Table.subsample'
+    if not repo.has_func(TABLE, q):
+        return
+    fn = repo.func(TABLE, q)
+    par = {}
+    for p in ast.walk(fn):
+        for c in ast.iter_child_nodes(p):
+            par[id(c)] = p
+    for c in body_walk(fn):
+        if isinstance(c, ast.Call) and call_name(c) == 'subsample':
+            cur, extra = c, []
+            while id(cur) in par and par[id(cur)] is not fn:
+                p = par[id(cur)]
+                if isinstance(p, ast.If) and cur is not p.test and \
+                        'by_id' not in _names(p.test):
+                    extra.append(p)
+                cur = p
+            col.check(not extra, rule, TABLE, q, 'kernel-unconditional', c,
+                      'the kernel runs whenever counts are subsampled',
+                      'the kernel call is skipped unless `%s`: vectors '
+                      'below the depth are then kept whole'
+                      % (unparse(extra[0].test, 60) if extra else ''))
+
+
+def rule_rank_methods(repo, col):
+    rule = 'AG-RANKMETHODS'
+    q = 'Table.rankdata'
+    if not repo.has_func(TABLE, q):
+        return
+    fn = repo.func(TABLE, q)
+    want = {'average', 'min', 'max', 'dense', 'ordinal'}
+    n = 0
+    for c in ast.walk(fn):
+        if isinstance(c, ast.Compare) and isinstance(
+                c.ops[0], (ast.In, ast.NotIn)) and 'method' in _names(
+                c.left) and isinstance(c.comparators[0],
+                                       (ast.Tuple, ast.List, ast.Set)):
+            have = {const_str_(e) for e in c.comparators[0].elts}
+            n += 1
+            col.check(want <= have, rule, TABLE, q, 'whitelist', c,
+                      'every scipy method is listed',
+                      'the method whitelist lacks %s' % sorted(want - have))
+    col.ok(rule, TABLE, q, 'scan', fn, '%d method whitelists' % n)
+    # norm: the callback is a plain division by the vector's total
+    q = 'Table.norm'
+    if repo.has_func(TABLE, q):
+        fn = repo.func(TABLE, q)
+        for d in ast.walk(fn):
+            if isinstance(d, ast.FunctionDef) and d is not fn:
+                rets = [r for r in ast.walk(d) if isinstance(r, ast.Return)]
+                bad = [r for r in rets if not (
+                    isinstance(r.value, ast.BinOp) and isinstance(
+                        r.value.op, ast.Div))]
+                handlers = [h for h in ast.walk(d)
+                            if isinstance(h, ast.ExceptHandler)]
+                col.check(bool(rets) and not bad and not handlers,
+                          'TA-RECIPROCAL', TABLE, q, 'plain-division',
+                          (bad or handlers or [d])[0],
+                          'every vector is divided by its total',
+                          'the norm callback does not return value / total '
+                          'on every path (`%s`): some vectors are handed '
+                          'back un-normalised' % (
+                              unparse((bad or handlers)[0], 50)
+                              if (bad or handlers) else ''))
+
+
+def rule_file_ids(repo, col):
+    rule = 'SB-FILEIDS'
+    q = 'Table.from_hdf5'
+    if not repo.has_func(TABLE, q):
+        return
+    fn = repo.func(TABLE, q)
+    for d in ast.walk(fn):
+        if isinstance(d, ast.FunctionDef) and d.name == '_get_ids':
+            src_p = d.args.args[0].arg if d.args.args else None
+            for r in ast.walk(d):
+                if isinstance(r, ast.Return) and isinstance(
+                        r.value, ast.Tuple) and r.value.elts:
+                    e = r.value.elts[0]
+                    vals = [e]
+                    if isinstance(e, ast.Name):
+                        vals = [a.value for a in ast.walk(d) if isinstance(
+                            a, ast.Assign) and any(
+                            isinstance(t, ast.Name) and t.id == e.id
+                            for t in a.targets)]
+                    ok = bool(vals) and all(
+                        isinstance(v, ast.Subscript) and
+                        dotted(v.value) == src_p for v in vals)
+                    col.check(ok, rule, TABLE, q, 'ids-from-file', r,
+                              'the returned ids are a selection of the '
+                              'stored ids',
+                              'the ids handed back are `%s`, not a '
+                              'selection of the stored ids: the labels '
+                              'follow the request while data and metadata '
+                              'follow the file' % ' / '.join(
+                                  unparse(v, 30) for v in vals))
+
+
+def rule_filter_order(repo, col):
+    from .cfg import CFG
+    rule = 'OR-FILTERORDER'
+    q = 'parse_biom_table'
+    if not repo.has_func(PARSE, q):
+        return
+    fn = repo.func(PARSE, q)
+    nested = {d.name: d for d in ast.walk(fn)
+              if isinstance(d, ast.FunctionDef) and d is not fn}
+    cfg = CFG(fn)
+    sub = emp = None
+    for s_ in cfg.stmt_nodes():
+        if s_.kind != 'stmt':
+            continue
+        for c in ast.walk(s_.stmt):
+            if isinstance(c, ast.Call) and isinstance(
+                    c.func, ast.Attribute) and c.func.attr == 'filter' and \
+                    c.args and isinstance(c.args[0], ast.Name) and \
+                    c.args[0].id in nested:
+                body = unparse(nested[c.args[0].id], 400)
+                if ' in ' in body and 'any' not in body:
+                    sub = s_
+                elif 'any' in body or 'sum' in body:
+                    emp = s_
+    if sub is None or emp is None:
+        col.unknown(rule, PARSE, q, 'order', fn, 'filters not recognised')
+        return
+    col.check(cfg.dominates(sub, emp), rule, PARSE, q, 'order', emp.stmt,
+              'ids are selected first, emptied vectors dropped afterwards',
+              'the empty-vector clean-up runs before the id filter: '
+              'vectors emptied by the subsetting survive')
+
+
+def rule_errmsg_repr(repo, col):
+    rule = 'AG-ERRMSG'
+    q = 'Table._cast_metadata'
+    if not repo.has_func(TABLE, q):
+        return
+    fn = repo.func(TABLE, q)
+    for r in ast.walk(fn):
+        if isinstance(r, ast.Raise) and r.exc is not None:
+            for b in ast.walk(r.exc):
+                if isinstance(b, ast.BinOp) and isinstance(b.op, ast.Mod) \
+                        and isinstance(b.left, ast.Constant):
+                    safe = isinstance(b.right, (ast.Tuple, ast.Call,
+                                                ast.Constant))
+                    col.check(safe, rule, TABLE, q, 'message-operand', b,
+                              'the operand is wrapped (repr / tuple)',
+                              '`%s`: an entry that is a tuple is taken for '
+                              'the argument tuple of %% and raises '
+                              'TypeError instead of the table error'
+                              % unparse(b, 60))
+
+
+def rule_reduce_all(repo, col):
+    rule = 'SB-REDUCEALL'
+    q = 'Table.reduce'
+    if not repo.has_func(TABLE, q):
+        return
+    fn = repo.func(TABLE, q)
+    bad = [c for c in ast.walk(fn) if (isinstance(c, ast.Attribute) and
+                                       c.attr in ('data', 'nnz')) or (
+        isinstance(c, ast.keyword) and c.arg == 'dense' and isinstance(
+            c.value, ast.Constant) and c.value.value is False)]
+    col.check(not bad, rule, TABLE, q, 'dense-vectors', bad[0] if bad
+              else fn, 'whole vectors are folded',
+              'the fold runs over the stored entries only: for a reducer '
+              'that is not a sum the zeros of a vector matter')
+
+
+def rule_export_asis(repo, col):
+    rule = 'TA-EXPORTASIS'
+    q = 'Table.metadata_to_dataframe'
+    if not repo.has_func(TABLE, q):
+        return
+    fn = repo.func(TABLE, q)
+    bad = [c for c in ast.walk(fn) if isinstance(c, ast.Call) and (
+        call_name(c) or '').split('.')[-1] in (
+        'to_numeric', 'infer_objects', 'convert_dtypes', 'astype')]
+    col.check(not bad, rule, TABLE, q, 'no-inference', bad[0] if bad
+              else fn, 'values are exported as stored',
+              '`%s` re-types the exported metadata: text such as "007" or '
+              '"1e3" loses its spelling' % (unparse(bad[0], 50)
+                                            if bad else ''))
+
+
+def rule_quotes_everywhere(repo, col):
+    rule = 'TA-QUOTES'
+    q = 'MetadataMap.from_file'
+    if not repo.has_func(PARSE, q):
+        return
+    fn = repo.func(PARSE, q)
+    n = 0
+    for t in ast.walk(fn):
+        if isinstance(t, ast.If) and 'strip_quotes' in _names(t.test):
+            for d in ast.walk(ast.Module(body=t.body, type_ignores=[])):
+                if isinstance(d, ast.FunctionDef):
+                    n += 1
+                    src = unparse(d, 400)
+                    col.check(".replace('\"', '')" in src, rule, PARSE, q,
+                              'quotes@%d' % n, d,
+                              'every quote of the field is removed',
+                              'the quote-removing helper is `%s`: quotes '
+                              'inside a field, or enclosing quotes with '
+                              'blanks outside them, survive'
+                              % src[-60:])
+    if not n:
+        col.unknown(rule, PARSE, q, 'quotes', fn, 'helpers not found')
+
+
+def rule_split_strips(repo, col):
+    from .consteval import ConstEval, UNKNOWN, _FALLTHROUGH
+    rule = 'AG-SPLITSTRIP'
+    rel = 'biom/cli/metadata_adder.py'
+    ce = ConstEval(repo)
+    for q, arg, want in (('_split_on_semicolons', ' a ; b;c ',
+                          ['a', 'b', 'c']),
+                         ('_split_on_semicolons_and_pipes', 'a ; b | c',
+                          [['a', 'b'], ['c']])):
+        if not repo.has_func(rel, q):
+            continue
+        fn = repo.func(rel, q)
+        p = fn.args.args[0].arg
+        r = ce.run_body(fn.body, rel, {p: arg})
+        if r is UNKNOWN or r is _FALLTHROUGH:
+            col.unknown(rule, rel, q, 'strips-both-sides', fn,
+                        'converter not evaluable')
+        else:
+            col.check(r == want, rule, rel, q, 'strips-both-sides', fn,
+                      'blanks around every element are removed',
+                      '%r is converted to %r, expected %r' % (arg, r, want))
+
+
+def rule_adjacency_header(repo, col):
+    rule = 'AG-ADJHEADER'
+    q = 'Table.from_adjacency'
+    if not repo.has_func(TABLE, q):
+        return
+    fn = repo.func(TABLE, q)
+    ok = any(isinstance(c, ast.Compare) and any(
+        isinstance(x, (ast.List, ast.Tuple)) and
+        [const_str_(e) for e in x.elts] == ['#OTU ID', 'SampleID', 'value']
+        for x in ast.walk(c)) for c in ast.walk(fn))
+    col.check(ok, rule, TABLE, q, 'exact-header', fn,
+              'the header is recognised by its exact text',
+              'the first line is no longer compared with the documented '
+              'header: a record whose observation id starts with "#" is '
+              'taken for a header and dropped')
